@@ -4,6 +4,7 @@
 -/
 import Rtamt.Py.RunPast
 import Rtamt.Generated
+import RtamtProofs.GenPastLemmas
 
 namespace Rtamt.Py
 open Rtamt Val
@@ -24,17 +25,115 @@ def plainP : F α → Bool
 /-- The methods found in `StlPastifier` are the node classes the regenerated table marks as overridden. -/
 theorem genPast_table (k : Kind) :
     (lookupP k).isSome = (Generated.pastifier.handles k || Generated.pastifier.raises k) := by
-  sorry
+  cases k <;> rfl
 
 /-- The translated pastifier visitor, started with a remaining horizon `R` (possibly negative: it then behaves as with 0),
     builds the formula `past R φ` — for every formula without unbounded future operator. -/
 theorem genPast_visit (φ : F α) (hb : φ.bounded = true) (hpl : plainP φ = true) (R : Int) :
     pastG φ R = .ok (past R.toNat φ) := by
-  sorry
+  induction φ generalizing R with
+  | var x => exact call_variable _ x R
+  | const c => exact call_constant _ c R
+  | un op φ ih =>
+    have ih := ih hb hpl
+    have h0 : pastG φ (hor φ : Int) = .ok (past (hor φ) φ) := by simpa using ih (hor φ : Int)
+    cases op
+    · exact call_delay1 _ Gen.Past.visitAbs "Abs" _ _ R (hor φ) rfl rfl h0 rfl
+    · exact call_delay1 _ Gen.Past.visitSqrt "Sqrt" _ _ R (hor φ) rfl rfl h0 rfl
+    · exact call_delay1 _ Gen.Past.visitExp "Exp" _ _ R (hor φ) rfl rfl h0 rfl
+    · exact call_delay1 _ Gen.Past.visitLn "Ln" _ _ R (hor φ) rfl rfl h0 rfl
+    · exact call_delay1 _ Gen.Past.visitNegate "Negate" _ _ R (hor φ) rfl rfl h0 rfl
+    · exact call_delay1 _ Gen.Past.visitNot "Neg" _ _ R (hor φ) rfl rfl h0 rfl
+  | bin op φ ψ ih1 ih2 =>
+    simp only [F.bounded, plainP, Bool.and_eq_true] at hb hpl
+    have ih1 := ih1 hb.1 hpl.1.2
+    have ih2 := ih2 hb.2 hpl.2
+    have h1 : pastG φ ((max (hor φ) (hor ψ) : Nat) : Int) = .ok (past (max (hor φ) (hor ψ)) φ) := by
+      simpa using ih1 ((max (hor φ) (hor ψ) : Nat) : Int)
+    have h2 : pastG ψ ((max (hor φ) (hor ψ) : Nat) : Int) = .ok (past (max (hor φ) (hor ψ)) ψ) := by
+      simpa using ih2 ((max (hor φ) (hor ψ) : Nat) : Int)
+    cases op
+    · exact call_delay2 _ Gen.Past.visitAddition "Addition" _ _ _ R (max (hor φ) (hor ψ)) rfl rfl h1 h2 rfl
+    · exact call_delay2 _ Gen.Past.visitSubtraction "Subtraction" _ _ _ R (max (hor φ) (hor ψ)) rfl rfl h1 h2 rfl
+    · exact call_delay2 _ Gen.Past.visitMultiplication "Multiplication" _ _ _ R (max (hor φ) (hor ψ)) rfl rfl h1 h2 rfl
+    · exact call_delay2 _ Gen.Past.visitDivision "Division" _ _ _ R (max (hor φ) (hor ψ)) rfl rfl h1 h2 rfl
+    · exact call_delay2 _ Gen.Past.visitPow "Pow" _ _ _ R (max (hor φ) (hor ψ)) rfl rfl h1 h2 rfl
+    · exact call_delay2 _ Gen.Past.visitLog "Log" _ _ _ R (max (hor φ) (hor ψ)) rfl rfl h1 h2 rfl
+    · exact call_predicate _ _ _ _ R (max (hor φ) (hor ψ)) h1 h2
+    · exact call_delay2 _ Gen.Past.visitAnd "Conjunction" _ _ _ R (max (hor φ) (hor ψ)) rfl rfl h1 h2 rfl
+    · exact call_delay2 _ Gen.Past.visitOr "Disjunction" _ _ _ R (max (hor φ) (hor ψ)) rfl rfl h1 h2 rfl
+    · exact call_delay2 _ Gen.Past.visitImplies "Implies" _ _ _ R (max (hor φ) (hor ψ)) rfl rfl h1 h2 rfl
+    · exact call_delay2 _ Gen.Past.visitIff "Iff" _ _ _ R (max (hor φ) (hor ψ)) rfl rfl h1 h2 rfl
+    · exact call_delay2 _ Gen.Past.visitXor "Xor" _ _ _ R (max (hor φ) (hor ψ)) rfl rfl h1 h2 rfl
+    · exact absurd hpl.1.1 (by simp)
+    · exact absurd hpl.1.1 (by simp)
+  | tmp1 op φ ih =>
+    simp only [F.bounded, plainP, Bool.and_eq_true] at hb hpl
+    have ih := ih hb.2 hpl
+    have h0 : pastG φ (hor φ : Int) = .ok (past (hor φ) φ) := by simpa using ih (hor φ : Int)
+    have hn : pastG φ (R - 1) = .ok (past (R.toNat - 1) φ) := by
+      have := ih (R - 1)
+      rwa [show (R - 1).toNat = R.toNat - 1 by omega] at this
+    cases op
+    · exact call_delay1 _ Gen.Past.visitRise "Rise" _ _ R (hor φ) rfl rfl h0 rfl
+    · exact call_delay1 _ Gen.Past.visitFall "Fall" _ _ R (hor φ) rfl rfl h0 rfl
+    · exact call_delay1 _ Gen.Past.visitPrevious "Previous" _ _ R (hor φ) rfl rfl h0 rfl
+    · exact call_delay1 _ Gen.Past.visitStrongPrevious "StrongPrevious" _ _ R (hor φ) rfl rfl h0 rfl
+    · exact call_next _ Gen.Past.visitNext _ R (hor φ + 1) rfl rfl hn
+    · exact call_next _ Gen.Past.visitStrongNext _ R (hor φ + 1) rfl rfl hn
+    · exact call_delay1 _ Gen.Past.visitOnce "Once" _ _ R (hor φ) rfl rfl h0 rfl
+    · exact call_delay1 _ Gen.Past.visitHistorically "Historically" _ _ R (hor φ) rfl rfl h0 rfl
+    · exact absurd hb.1 (by simp)
+    · exact absurd hb.1 (by simp)
+  | tmp2 op φ ψ ih1 ih2 =>
+    simp only [F.bounded, plainP, Bool.and_eq_true] at hb hpl
+    have ih1 := ih1 hb.1.2 hpl.1
+    have ih2 := ih2 hb.2 hpl.2
+    have h1 : pastG φ ((max (hor φ) (hor ψ) : Nat) : Int) = .ok (past (max (hor φ) (hor ψ)) φ) := by
+      simpa using ih1 ((max (hor φ) (hor ψ) : Nat) : Int)
+    have h2 : pastG ψ ((max (hor φ) (hor ψ) : Nat) : Int) = .ok (past (max (hor φ) (hor ψ)) ψ) := by
+      simpa using ih2 ((max (hor φ) (hor ψ) : Nat) : Int)
+    cases op
+    · exact call_since _ _ _ R (max (hor φ) (hor ψ)) h1 h2
+    · exact absurd hb.1.1 (by simp)
+  | tb1 op a b φ ih =>
+    simp only [F.bounded, plainP] at hb hpl
+    have ih := ih hb hpl
+    have h0 : pastG φ (hor φ : Int) = .ok (past (hor φ) φ) := by simpa using ih (hor φ : Int)
+    have hn : pastG φ (R - (b : Int)) = .ok (past (R.toNat - b) φ) := by
+      have := ih (R - (b : Int))
+      rwa [show (R - (b : Int)).toNat = R.toNat - b by omega] at this
+    cases op
+    · exact call_timedOnce _ _ a b R (hor φ) h0
+    · exact call_timedHistorically _ _ a b R (hor φ) h0
+    · exact call_timedFuture _ Gen.Past.visitTimedEventually "TimedOnce" _ _ a b R (hor φ + b) rfl rfl hn rfl
+    · exact call_timedFuture _ Gen.Past.visitTimedAlways "TimedHistorically" _ _ a b R (hor φ + b) rfl rfl hn rfl
+  | tb2 op a b φ ψ ih1 ih2 =>
+    simp only [F.bounded, plainP, Bool.and_eq_true] at hb hpl
+    have ih1 := ih1 hb.1 hpl.1
+    have ih2 := ih2 hb.2 hpl.2
+    have h1 : pastG φ ((max (hor φ) (hor ψ) : Nat) : Int) = .ok (past (max (hor φ) (hor ψ)) φ) := by
+      simpa using ih1 ((max (hor φ) (hor ψ) : Nat) : Int)
+    have h2 : pastG ψ ((max (hor φ) (hor ψ) : Nat) : Int) = .ok (past (max (hor φ) (hor ψ)) ψ) := by
+      simpa using ih2 ((max (hor φ) (hor ψ) : Nat) : Int)
+    have hn1 : pastG φ (R - (b : Int)) = .ok (past (R.toNat - b) φ) := by
+      have := ih1 (R - (b : Int))
+      rwa [show (R - (b : Int)).toNat = R.toNat - b by omega] at this
+    have hn2 : pastG ψ (R - (b : Int)) = .ok (past (R.toNat - b) ψ) := by
+      have := ih2 (R - (b : Int))
+      rwa [show (R - (b : Int)).toNat = R.toNat - b by omega] at this
+    cases op
+    · exact call_timedSince _ _ _ a b R (max (hor φ) (hor ψ)) h1 h2
+    · exact call_timedUntil _ _ _ a b R (max (hor φ) (hor ψ) + b) hn1 hn2
+    · exact call_timedPrecedes _ _ _ a b R (max (hor φ) (hor ψ)) h1 h2
 
 /-- Formulas with an unbounded future operator are rejected with RTAMTException (by the horizon visitor). -/
 theorem genPast_pastify (φ : F α) (hpl : plainP φ = true) :
     pastifyG φ = if φ.bounded then .ok (pastify φ) else .error .rtamt := by
-  sorry
+  unfold pastifyG
+  rw [hor?_eq]
+  cases hb : φ.bounded
+  · rfl
+  · simpa [pastify] using genPast_visit φ hb hpl (hor φ : Int)
 
 end Rtamt.Py
